@@ -9,6 +9,7 @@ import yaml
 
 from sa.absint import Evaluator
 from sa.index import AnalysisError
+from sa.jinja_ai import NotModelled
 from sa.terms import Sym
 from sa.jinja_ai import ConfigMap, Image, JinjaAI, UNDEF
 from sa.schema import KeyRef, TypeRef
@@ -409,6 +410,8 @@ def check_root_config(ctx, ai, var, label, acc, envt, present, custom, default_r
     try:
         text = ai.render(var)
         doc = yaml.load(text, Loader=LOADER)
+    except NotModelled:
+        raise  # a construct the template interpreter does not model: not a verdict about the template
     except AnalysisError as e:
         _fail(ctx, "C19-D1a root: rendering and type check", label, ROOT, "the template renders", str(e))
         return
@@ -557,6 +560,8 @@ def top_rules(ctx, acc, envt, default_roles):
             for cname, role in (("nRF54H20_sec", "SEC_SDFW"), ("nRF54H20_sys", "SEC_SYSCTRL"), ("nRF54H20_nordic_top", "SEC_TOP")):
                 if default_roles.get(cname) != role:
                     errs.append(f"class {cname} has role {default_roles.get(cname)} in the storage table, expected {role}")
+        except NotModelled:
+            raise
         except AnalysisError as e:
             errs.append(str(e))
         except yaml.YAMLError as e:
